@@ -15,7 +15,11 @@ Record ccase := mkCase {
   c_stable : bool;           (* repeated calls in fresh HashMaps returned identical results *)
   c_out : list opath;        (* the returned paths, in order *)
   c_bytes0 : list N;         (* raw dp_path bytes of the first returned path ([] if none) *)
-  c_has_sub : bool;          (* the input is "valid set + added segments" and c_sub is meaningful *)
+  c_has_sub : N;             (* 0: no reference run; 1: the input is "valid set + added segments": the
+                                paths of c_sub must be returned in the same relative order; 2: the input
+                                is "valid set with added peer entries" (peer indices, a sort key, shift):
+                                the routes of c_sub must be returned, in any order (a duplicated peer
+                                entry may supersede the hop field, hence the expiry, of a route) *)
   c_sub : list opath }.      (* what the implementation returns for the valid subset alone *)
 
 (** SHA-256 stand-ins for one case *)
@@ -104,7 +108,8 @@ Definition verdict (c : ccase) : N :=
   let bad := c_panic c
              || negb (forallb self_consistent (c_out c)) || negb (bytes0_decodes c)
              || negb (forallb (provenance_ok (c_cores c ++ c_noncores c)) (c_out c))
-             || (c_has_sub c && negb ties && negb (route_subseq (c_sub c) (c_out c)))
+             || ((c_has_sub c =? 1) && negb ties && negb (route_subseq (c_sub c) (c_out c)))
+             || ((c_has_sub c =? 2) && negb (forallb (fun p => existsb (same_route p) (c_out c)) (c_sub c)))
              || (c_wf c && negb (c04_ok c)) in
   (if mismatch then 1 else 0) + (if bad then 2 else 0).
 
